@@ -24,6 +24,19 @@ def canon(item):
         return {'int': str(item.value)}
     if isinstance(item, T.LambdaType):
         return item.value.as_micheline_expr()
+    if isinstance(item, T.OperationType):
+        # what the operation records (`content`); the parameter / payload is read back at its type and rendered like any value
+        S = lambda x: {'string': x}
+        c = item.content
+        if c['kind'] == 'transaction':
+            return {'prim': 'TRANSFER', 'args': [S(c['source']), S(c['destination']), S(c['parameters']['entrypoint']), {'int': str(int(c['amount']))},
+                                                 ty_strip(item.ty.as_micheline_expr()), canon(item.ty.from_micheline_value(c['parameters']['value']))]}
+        if c['kind'] == 'delegation':
+            d = c['delegate']
+            return {'prim': 'DELEGATE', 'args': [S(c['source']), {'prim': 'None'} if d is None else {'prim': 'Some', 'args': [S(d)]}]}
+        if c['kind'] == 'event':
+            return {'prim': 'EVENT', 'args': [S(c['source']), S(c['tag']), ty_strip(c['event_type']), canon(item.ty.from_micheline_value(c['payload']))]}
+        raise TypeError('operation ' + c['kind'])
     if isinstance(item, T.BytesType):
         return {'bytes': item.value.hex()}
     if isinstance(item, T.StringType):      # string, address, chain_id …
@@ -56,6 +69,8 @@ def run_real(code, env):
     ctx.sender, ctx.source, ctx.address, ctx.chain_id = env['sender'], env['source'], env['self'], env['chain_id']
     ctx.total_voting_power, ctx.min_block_time = env.get('total_voting_power', 0), env.get('min_block_time', 1)
     ctx.voting_power = dict(env.get('voting_power', {}))
+    if env.get('parameter') is not None:      # the parameter section of the running contract (SELF looks its entrypoints up)
+        ctx.parameter_expr = {'prim': 'parameter', 'args': [env['parameter']]}
     stack = MichelsonStack()
     try:
         Micheline.match(code).execute(stack, [], ctx)
@@ -154,6 +169,8 @@ def run_session(code, env, prelude):
     c.sender, c.source, c.address, c.chain_id = env['sender'], env['source'], env['self'], env['chain_id']
     c.total_voting_power, c.min_block_time = env.get('total_voting_power', 0), env.get('min_block_time', 1)
     c.voting_power = dict(env.get('voting_power', {}))
+    if env.get('parameter') is not None:
+        c.parameter_expr = {'prim': 'parameter', 'args': [env['parameter']]}
     for cell in prelude:
         interp.execute(cell)
     if interp.stack.items:
